@@ -22,6 +22,7 @@ pub struct Ctx {
     pub model_zip: bool, pub n_zip_coq: usize, pub cap_zip_coq: usize,
     pub n_min0_coq: usize, pub cap_min0_coq: usize,
     pub model_uintvec: bool, pub n_uintvec_coq: usize, pub cap_uintvec_coq: usize,
+    pub model_min0typed: bool, pub n_min0typed_coq: usize, pub cap_min0typed_coq: usize,
 }
 
 fn le_number(data: &[u8]) -> String {
@@ -268,18 +269,29 @@ fn zip_case(cx: &mut Ctx, vals: &[u64], mode: u32, force_coq: bool) {
 }
 
 /// UintVecMin0::build_from_i32 / build_from_u32 (value = min + stored offset)
-fn min0_typed_case(cx: &mut Ctx, vals: &[i64], signed: bool) {
+fn min0_typed_case(cx: &mut Ctx, vals: &[i64], signed: bool, force_coq: bool) {
     let cell = if signed { "UintVecMin0/build_from_i32" } else { "UintVecMin0/build_from_u32" };
     cx.sum.eval(cell, &format!("{} {:?}", cell, vals), vals.len() >= 2);
-    cx.sum.cell_status(cell, "S-only");
+    cx.sum.cell_status(cell, if cx.model_min0typed { "M+S" } else { "S-only" });
     let cj = json!({"cell": "min0typed", "signed": signed, "values": vals.iter().map(|v| v.to_string()).collect::<Vec<_>>()});
+    // (size, uintbits, min, stored offsets)
     let r = guarded(|| {
-        if signed { let v: Vec<i32> = vals.iter().map(|&x| x as i32).collect(); let (m, mn) = UintVecMin0::build_from_i32(&v); (m.size(), (0..v.len()).map(|i| mn as i64 + m.get(i) as i64).collect::<Vec<i64>>()) }
-        else { let v: Vec<u32> = vals.iter().map(|&x| x as u32).collect(); let (m, mn) = UintVecMin0::build_from_u32(&v); (m.size(), (0..v.len()).map(|i| mn as i64 + m.get(i) as i64).collect::<Vec<i64>>()) }
+        if signed { let v: Vec<i32> = vals.iter().map(|&x| x as i32).collect(); let (m, mn) = UintVecMin0::build_from_i32(&v); (m.size(), m.uintbits(), mn as i64, (0..v.len()).map(|i| m.get(i)).collect::<Vec<usize>>()) }
+        else { let v: Vec<u32> = vals.iter().map(|&x| x as u32).collect(); let (m, mn) = UintVecMin0::build_from_u32(&v); (m.size(), m.uintbits(), mn as i64, (0..v.len()).map(|i| m.get(i)).collect::<Vec<usize>>()) }
     });
+    let mut obs: Vec<String> = vec![];
     match r {
-        Err(p) => cx.sum.fail(cell, None, cj, &format!("panicked: {}", p)),
-        Ok((len, out)) => check_seq(cx, cell, None, cj, vals, len, |i| out.get(i).copied()),
+        Err(p) => { obs.push("[(-1)]%Z".into()); cx.sum.fail(cell, None, cj.clone(), &format!("panicked: {}", p)) }
+        Ok((len, bits, mn, stored)) => {
+            obs.push(format!("[0; {}; {}; {}]%Z", len, bits, coq_z(mn as i128)));
+            obs.push(format!("[{}]%Z", stored.iter().map(|s| s.to_string()).collect::<Vec<_>>().join("; ")));
+            let out: Vec<i64> = stored.iter().map(|&s| mn + s as i64).collect();
+            check_seq(cx, cell, None, cj.clone(), vals, len, |i| out.get(i).copied());
+        }
+    }
+    if cx.model_min0typed && (force_coq || (cx.shards.len() < cx.budget && cx.n_min0typed_coq < cx.cap_min0typed_coq)) {
+        cx.n_min0typed_coq += 1;
+        cx.shards.push(format!("CMin0Typed {} {} [{}]", coq_bool(signed), coq_z_list(vals.iter().map(|&v| v as i128)), obs.join("; ")), cj);
     }
 }
 
@@ -300,7 +312,7 @@ fn run_one(cx: &mut Ctx, c: &Value, rng: &mut Rng) {
         }
         Some("uintvector") => uintvector_case(cx, &parse_u64s(&c["values"]).iter().map(|&x| x as u32).collect::<Vec<_>>(), c["push"].as_bool().unwrap_or(false), true, rng),
         Some("zip") => { let mode = c["mode"].as_u64().map(|m| m as u32).unwrap_or(if c["push"].as_bool().unwrap_or(false) { 1 } else { 0 }); zip_case(cx, &parse_u64s(&c["values"]), mode, true) }
-        Some("min0typed") => { let v: Vec<i64> = c["values"].as_array().unwrap().iter().map(|x| x.as_str().unwrap_or("0").parse::<i64>().unwrap_or(0)).collect(); min0_typed_case(cx, &v, c["signed"].as_bool().unwrap_or(false)) }
+        Some("min0typed") => { let v: Vec<i64> = c["values"].as_array().unwrap().iter().map(|x| x.as_str().unwrap_or("0").parse::<i64>().unwrap_or(0)).collect(); min0_typed_case(cx, &v, c["signed"].as_bool().unwrap_or(false), true) }
         Some("intvec") => {
             let strs: Vec<String> = c["values"].as_array().unwrap().iter().map(|x| x.as_str().unwrap().to_string()).collect();
             let ctor = c["ctor"].as_u64().unwrap_or(0) as usize;
@@ -333,6 +345,7 @@ pub fn run(args: &Args) {
         model_zip: MODEL_ZIP, n_zip_coq: 0, cap_zip_coq: if th { 2000 } else { 200 },
         n_min0_coq: 0, cap_min0_coq: if th { 3000 } else { 350 },
         model_uintvec: MODEL_UINTVEC, n_uintvec_coq: 0, cap_uintvec_coq: if th { 1500 } else { 150 },
+        model_min0typed: MODEL_MIN0TYPED, n_min0typed_coq: 0, cap_min0typed_coq: if th { 500 } else { 50 },
     };
     let mut rng = Rng::new(args.seed);
     if let Some(f) = &args.replay {
@@ -400,9 +413,9 @@ pub fn run(args: &Args) {
         // UintVecMin0 typed builders
         let tn = *rng.pick(&[1usize, 2, 3, 64, 65]);
         let tv: Vec<i64> = (0..tn).map(|_| match i % 4 { 0 => rng.below(100) as i64 - 50, 1 => *rng.pick(&[i32::MIN as i64, i32::MAX as i64, 0, -1, 1]), 2 => (rng.next() as i32) as i64, _ => i32::MIN as i64 + rng.below(1000) as i64 }).collect();
-        min0_typed_case(&mut cx, &tv, true);
+        min0_typed_case(&mut cx, &tv, true, false);
         let tu: Vec<i64> = tv.iter().map(|&x| (x as i32 as u32) as i64).collect();
-        min0_typed_case(&mut cx, &tu, false);
+        min0_typed_case(&mut cx, &tu, false, false);
     }
     cx.sum.dist_max("coq_cases", cx.shards.len() as u64);
     cx.sum.dist_max("coq_cases_min0", cx.n_min0_coq as u64);
@@ -410,6 +423,7 @@ pub fn run(args: &Args) {
     cx.sum.dist_max("coq_cases_zip", cx.n_zip_coq as u64);
     cx.sum.dist_max("coq_cases_intvec", cx.n_intvec_coq as u64);
     cx.sum.dist_max("coq_cases_uintvector", cx.n_uintvec_coq as u64);
+    cx.sum.dist_max("coq_cases_min0typed", cx.n_min0typed_coq as u64);
     let sh = cx.shards.write(&args.out);
     cx.sum.write(&args.out, sh);
 }
@@ -419,3 +433,4 @@ const MODEL_SORTED: bool = true;
 const MODEL_INTVEC: bool = true;
 const MODEL_ZIP: bool = true;
 const MODEL_UINTVEC: bool = true;
+const MODEL_MIN0TYPED: bool = true;
